@@ -49,8 +49,11 @@ type Action struct {
 
 // Run is one simulated execution.
 type Run struct {
-	Seed uint64
-	Tape *Tape
+	// SkipPoint, if set, lets a scenario pass single points of an enabled
+	// site without parking.
+	SkipPoint func(site, who string) bool
+	Seed      uint64
+	Tape      *Tape
 
 	step atomic.Int64
 
